@@ -115,11 +115,15 @@ def items(tier, seed):
         if p is not None:
             mult, comps = p
             out.append({"k": "compound", "u": sym, "mult": [str(mult.numerator), str(mult.denominator)], "comps": [[c, e] for c, e in comps],
-                        "ops": tier != "quick" or rng.random() < 0.34})
+                        "ops": True})
             continue
         s = si_prefixed(sym, info, U)
         if s is not None:
             out.append({"k": "prefix", "u": sym, "exp10": s[0], "base": s[1]})
+    # history: a registration of the row's symbol with OTHER formulas was refused just before; the row must still carry the shipped factor
+    rows = [c for c in out if c["k"] in ("compound", "prefix")]
+    for c in rows[::(25 if tier == "quick" else 4)]:
+        out.append({"k": "after_refused_addunit", "u": c["u"]})
     out.append({"k": "count", "n_compound": sum(1 for c in out if c["k"] == "compound"), "n_prefix": sum(1 for c in out if c["k"] == "prefix")})
     for c in out:
         if c["k"] == "compound" and c["u"] == "ft/min":
@@ -137,6 +141,24 @@ def run(cfg, V):
 
     if cfg["k"] == "count":
         return dict(cfg)
+    if cfg["k"] == "after_refused_addunit":
+        from .common import fresh_posc_db, pushed
+
+        sdb = fresh_posc_db()
+        info = sdb.unit_to_unit_info[cfg["u"]]
+        qt, base_u = info.quantity_type, sdb.GetUnits(info.quantity_type)[0]
+        with pushed(sdb):
+            before = Scalar(V["x"], cfg["u"]).GetValue(base_u) if qt in sdb.categories_to_quantity_types else None
+            try:
+                sdb.AddUnit(qt, "another " + info.name, cfg["u"], "%f / 1000.0", "%f * 1000.0")
+                refused = False
+            except RuntimeError:
+                refused = True
+            vals = [sdb.Convert(qt, cfg["u"], base_u, V["x"]), sdb.Convert(qt, cfg["u"], base_u, [V["x"]])[0]]
+            if qt in sdb.categories_to_quantity_types:
+                vals += [Scalar(V["x"], cfg["u"]).GetValue(base_u), before]
+            back = sdb.Convert(qt, base_u, cfg["u"], vals[0])
+        return {"refused": refused, "vals": vals, "back": back, "want": get_db("default").unit_to_unit_info[cfg["u"]].tobase(V["x"])}
     db = get_db("default")
     U = db.unit_to_unit_info
     x = V["x"]
@@ -191,9 +213,13 @@ def run(cfg, V):
 def _ulp_rel(v):
     """one unit in the last written digit of a literal, relative to the literal (0 for literals with <= 3 significant digits: exact by definition)"""
     m = repr(float(v)).lower().split("e")[0].replace(".", "").replace("-", "").lstrip("0").rstrip("0")
-    if len(m) < 4:
+    if len(m) < 4 or m in EXACT_BY_DEFINITION:
         return Fraction(0)
     return Fraction(1, 10 ** (len(m) - 1)) / Fraction(int(m), 10 ** (len(m) - 1))
+
+
+# digit strings of conversion constants that are exact by international definition (foot, inch, yard, mile, nautical mile, pound, standard gravity, atmosphere)
+EXACT_BY_DEFINITION = {"3048", "254", "9144", "1609344", "45359237", "1852", "980665", "101325"}
 
 
 def _tol(cfg, U):
@@ -213,6 +239,9 @@ def props(cfg, T, obs):
         if obs.isa(ValueError) and cfg["k"] == "compound" and len(cfg["comps"]) == 1 and cfg["comps"][0][1] < 0:
             return []  # the exponent conversion route takes 0 ** (1/negative): math domain error for the amount 0 (C02 states this exemption)
         return [("the row's closure and the component arithmetic do not raise", False)]
+    if cfg["k"] == "after_refused_addunit":
+        return [("a registration of an existing symbol is refused", bool(obs["refused"])),
+                ("after the refused registration the row converts with its shipped factor on every route", z3.And(*[approx(v, obs["want"]) for v in obs["vals"]], approx(obs["back"], T["x"])))]
     if cfg["k"] == "count":
         return [("the grammar still decomposes the table (about 950 compound and 150 prefixed rows expected)", obs["n_compound"] >= 700 and obs["n_prefix"] >= 80)]
     db = get_db("default")
@@ -264,6 +293,8 @@ def props(cfg, T, obs):
 
 
 def finding_key(cfg, name):
+    if cfg["k"] == "after_refused_addunit":
+        return "after a refused AddUnit of the symbol %s :: %s" % (cfg["u"], name)
     if "u" in cfg and (name.startswith("the unit string of the built") or name.startswith("the row's factor is applied alike")):
         return "table row %s :: %s" % (cfg["u"], name)
     return "table row %s disagrees with the product of its components" % cfg["u"] if "u" in cfg else "%s :: %s" % (cfg["k"], name)
